@@ -712,6 +712,9 @@ func (s *Store) FConv(kind int, a *Term) *Term {
 	case FConvF64ToF32, FConvS64ToF32, FConvU64ToF32:
 		rs = 32
 	}
+	if !UseFPTheory && !a.IsConst() && (kind == FConvS64ToF64 || kind == FConvU64ToF64) {
+		return s.intToF64(a, kind == FConvS64ToF64)
+	}
 	if a.IsConst() {
 		switch kind {
 		case FConvS64ToF64:
@@ -733,6 +736,36 @@ func (s *Store) FConv(kind int, a *Term) *Term {
 		}
 	}
 	return s.mk(&Term{Op: OpFConv, S: rs, Args: []*Term{a}, P1: kind})
+}
+
+// intToF64 is the exact round-to-nearest-even conversion of a 64-bit integer to IEEE double bits as a
+// pure bit-vector term (normalise by leading-zero count, round the 11 dropped bits, renormalise on carry).
+// Its equivalence with (to_fp RNE x) / (to_fp_unsigned RNE x) for all 2^64 inputs is the lemma
+// engine/lemmas/i2f.smt2 / u2f.smt2 (unsat in < 1 s), re-checked by setup_cmd.
+func (s *Store) intToF64(x *Term, signed bool) *Term {
+	c := func(v uint64) *Term { return s.BV(64, v) }
+	sgn := s.False
+	m := x
+	if signed {
+		sgn = s.SLt(x, c(0))
+		m = s.Ite(sgn, s.Neg(x), x)
+	}
+	y, n := m, c(0)
+	for _, st := range []struct{ probe, shift uint64 }{{32, 32}, {48, 16}, {56, 8}, {60, 4}, {62, 2}, {63, 1}} {
+		z := s.Eq(s.LShr(y, c(st.probe)), c(0))
+		y = s.Ite(z, s.Shl(y, c(st.shift)), y)
+		n = s.Ite(z, s.Add(n, c(st.shift)), n)
+	}
+	norm, lz := y, n
+	mant := s.LShr(norm, c(11))
+	rem := s.BAnd(norm, c(0x7ff))
+	up := s.Or(s.ULt(c(0x400), rem), s.And(s.Eq(rem, c(0x400)), s.Eq(s.BAnd(mant, c(1)), c(1))))
+	mantr := s.Add(mant, s.Ite(up, c(1), c(0)))
+	carry := s.Eq(s.LShr(mantr, c(53)), c(1))
+	ex := s.Add(s.Sub(c(0x43e), lz), s.Ite(carry, c(1), c(0)))
+	frac := s.Ite(carry, c(0), s.BAnd(mantr, c(0x000fffffffffffff)))
+	bits := s.BOr(s.Ite(sgn, c(0x8000000000000000), c(0)), s.BOr(s.Shl(ex, c(52)), frac))
+	return s.Ite(s.Eq(m, c(0)), c(0), bits)
 }
 
 func (s *Store) FArith(kind int, args ...*Term) *Term {
